@@ -23,7 +23,7 @@ import numpy as np
 import gen
 import impl
 from core import REPO
-from dump import rat, unrat, mesh_json
+from dump import canon_path, rat, unrat, mesh_json
 
 import forsys as fs
 from forsys.surface_evolver import SurfaceEvolver
@@ -181,7 +181,7 @@ def draw_decimal(rng, value, n, ck, digits=15):
     """format like Surface Evolver (%.15g); literals near a rounding tie are rejected and redrawn slightly moved"""
     tok = fmt(value, digits)
     tries = 0
-    while near_tie(tok, n):
+    while near_tie(tok, n) and tries < 40:
         ck.count("rejected_near_tie")
         value = value + (10.0 ** -n) * (0.137 + 0.01 * tries)
         tok = fmt(value, digits)
@@ -374,6 +374,11 @@ def observe_frame(se, obs):
     obs["gt_ambiguous"] = [any(len(set(frame.vertices[a].ownEdges) & set(frame.vertices[b].ownEdges)) != 1 for a, b in zip(p, p[1:]))
                            for p, _ in obs["gt"]]
     obs["n_interfaces"] = len(frame.big_edges_list)
+    # the tissue's interfaces, walked independently on the parsed mesh-edge dictionary (no back-references involved)
+    gp, junc = impl.graph_paths(se.vertices, se.edges, se.cells)
+    mine = {canon_path([int(x) for x in p]) for p in frame.big_edges_list}
+    obs["interfaces_missing"] = sorted(gp - mine)[:3]
+    obs["interfaces_cut"] = sorted(p for p in mine if p not in gp and p[0] in junc and p[-1] in junc)[:3]
     return frame
 
 
@@ -433,6 +438,10 @@ def oracle(ck, spec, exp, obs, case):
 
 def oracle_gt(ck, spec, exp, obs, case):
     """interface reference = mean density of its mesh edges (densities from the generating data)"""
+    if obs.get("interfaces_missing") or obs.get("interfaces_cut"):
+        ck.fail("a frame built from the parse reports the reference tension of each interface (its interfaces are the maximal "
+                "junction-to-junction chains of the parsed mesh)",
+                f"missing {obs.get('interfaces_missing')} not maximal {obs.get('interfaces_cut')}", case)
     dens = {}
     multi = set()
     for eid, (a, b, g) in exp["e"].items():
@@ -505,7 +514,7 @@ def gen_cases(ck):
                 "p_orig": [0.0, 0.3, 1.0][int(ck.rng.integers(3))], "p_rev": [0.0, 0.5, 1.0][i % 3],
                 "extra_v": int(ck.rng.integers(0, 6)) if i % 2 else 0, "extra_e": int(ck.rng.integers(0, 8)) if i % 2 else 0,
                 "chords": int(ck.rng.integers(1, 5)) if i % 6 == 1 else 0,
-                "scale": int(ck.rng.integers(0, 9)) if i % 5 else [0, 1][i % 2],
+                "scale": ([-7, -5, 11, -6, -4, 10][(i // 7) % 6] if i % 7 == 3 else int(ck.rng.integers(0, 9))) if i % 5 else [0, 1][i % 2],
                 "tx": float(np.round(ck.rng.normal() * 10.0 ** int(ck.rng.integers(-3, 3)), 6)),
                 "ty": float(np.round(ck.rng.normal() * 10.0 ** int(ck.rng.integers(-3, 3)), 6)),
                 "nl": ["\n", "\r\n"][i % 2], "order": ["sorted", "sorted", "shuffled", "file"][int(ck.rng.integers(4))],
